@@ -1,6 +1,6 @@
 From Coq Require Import List NArith Bool Arith Lia.
 Import ListNotations.
-From Adeu Require Import Str ListX Chars Doc Norm Prims ParaMachine Project DocOps Review MarkupX Inst Engine Tree Split C01Core ReviewProofs DocProofs.
+From Adeu Require Import Str ListX Chars Doc Norm Prims ParaMachine Project DocOps Review MarkupX Inst Engine Tree Split C01Core ReviewProofs DocProofs BlockProofs.
 
 (* ---------- decimal ids: printing then parsing is the identity ---------- *)
 Lemma digit_of_small m : m < 10 -> digit_of (N.of_nat (48 + m)) = Some m.
@@ -25,7 +25,7 @@ Print Assumptions nat_of_str_of_nat.
 
 (* ---------- the session-rejected view and the relation every engine step preserves ---------- *)
 Section EngInv.
-Variable cur0 c0 : nat.          (* highest revision id / first free comment id when the session starts *)
+Variable cur0 c0 n0 : nat.          (* highest revision id / first free comment id / first free node identity when the session starts *)
 Definition Smark (m : mark) : bool := match nat_of_str (m_id m) with Some k => cur0 <? k | None => false end.
 Definition Ccom (i : str) : bool := match nat_of_str i with Some k => c0 <=? k | None => false end.
 Notation rejS := (rej Smark Ccom).
@@ -71,24 +71,84 @@ Proof. unfold insertion_anchor.
   all: try (match goal with H : do_split ?dd ?u ?k = (?d2, _, _) |- _ => pose proof (Rel_split dd u k) as S2; rewrite H in S2; cbn [fst] in S2; exact S2 end).
 Qed.
 
+(* node identities only grow *)
+Definition Mon (d d' : doc) : Prop := d_next_uid d <= d_next_uid d'.
+Lemma Mon_refl d : Mon d d. Proof. unfold Mon. lia. Qed.
+Lemma Mon_trans a b c : Mon a b -> Mon b c -> Mon a c. Proof. unfold Mon. lia. Qed.
+Lemma Mon_upd f d : Mon d (upd_doc f d). Proof. unfold Mon. cbn. lia. Qed.
+Lemma Mon_fresh d : Mon d (fst (fresh d)). Proof. unfold Mon, fresh. cbn. lia. Qed.
+Lemma Mon_split d uid k : Mon d (fst (fst (do_split d uid k))).
+Proof. unfold Mon, do_split, fresh. cbn. lia. Qed.
+Lemma Mon_resolve d sp a b : Mon d (fst (fst (resolve d sp a b))).
+Proof. unfold resolve.
+  destruct (filter o_real _) as [|first rest] eqn:Er; [apply Mon_refl|].
+  set (ro := offset_in_run sp first + (a - o_start first)).
+  destruct (0 <? ro) eqn:E0.
+  - pose proof (Mon_split d (o_uid first) ro) as S1. destruct (do_split d (o_uid first) ro) as [[d' l] r]. cbn [fst] in S1.
+    repeat (brk; cbn [fst]; try exact S1).
+    all: try (match goal with H : do_split ?dd ?u ?k = (?d2, _, _) |- _ => pose proof (Mon_split dd u k) as S2; rewrite H in S2; cbn [fst] in S2; exact (Mon_trans _ _ _ S1 S2) end).
+  - repeat (brk; cbn [fst]; try apply Mon_refl).
+    all: try (match goal with H : do_split ?dd ?u ?k = (?d2, _, _) |- _ => pose proof (Mon_split dd u k) as S2; rewrite H in S2; cbn [fst] in S2; exact S2 end).
+Qed.
+Lemma Mon_anchor d sp i : Mon d (fst (insertion_anchor d sp i)).
+Proof. unfold insertion_anchor.
+  repeat (brk; cbn [fst]; try apply Mon_refl).
+  all: try (match goal with H : do_split ?dd ?u ?k = (?d2, _, _) |- _ => pose proof (Mon_split dd u k) as S2; rewrite H in S2; cbn [fst] in S2; exact S2 end).
+Qed.
+
+(* ---------- paragraphs created by the session: identities from n0 on; they hold nothing but the session's insertions ---------- *)
+Definition kid (i : nat) : bool := i <? n0.
+Notation pruneS := (prune kid).
+Definition tape_kid (t : nat * N * pstyle * list atom) : bool := kid (fst (fst (fst t))).
+Definition tape_new_dead (t : nat * N * pstyle * list atom) : Prop := tape_kid t = false -> snd t = [].
+Definition NewDead (d : doc) : Prop := Forall tape_new_dead (map ptape (doc_paras d)).
+(* the relation with the session's own paragraphs dropped: exactly "dropping the run's insertions (and paragraphs made
+   only of them), restoring the run's deletions and removing the run's comments gives back the input" *)
+Definition RelG (d d' : doc) : Prop := Rel d (pruneS d') /\ NewDead d'.
+Lemma filter_ptape l : map ptape (filter (keepP kid) l) = filter tape_kid (map ptape l).
+Proof. induction l as [|p l IH]; [reflexivity|]. cbn [filter map]. unfold keepP at 1, tape_kid at 1. cbn [ptape fst].
+  destruct (kid (p_id p)); cbn [map]; now rewrite IH. Qed.
+Lemma skeleton_prune x : d_stories (skeleton (pruneS x)) = map (prune_story kid) (d_stories (skeleton x)).
+Proof. unfold skeleton. rewrite <- prune_map_doc by reflexivity. reflexivity. Qed.
+Lemma Rel_prune b c : Rel b c -> Rel (pruneS b) (pruneS c).
+Proof. intros (A1 & A2 & cs & A3 & A4). split; [|split].
+  - rewrite !doc_paras_prune, !filter_ptape. now rewrite A1.
+  - rewrite !skeleton_prune. now rewrite A2.
+  - exists cs. split; [exact A3|exact A4]. Qed.
+Lemma NewDead_rel b c : Rel b c -> NewDead b -> NewDead c.
+Proof. intros (A1 & _) H. unfold NewDead in *. now rewrite A1. Qed.
+Lemma RelG_step a b c : RelG a b -> Rel b c -> RelG a c.
+Proof. intros [R N] S. split; [exact (Rel_trans _ _ _ R (Rel_prune _ _ S))|exact (NewDead_rel _ _ S N)]. Qed.
+Lemma Rel_is_RelG a b : Forall (fun p => keepP kid p = true) (doc_paras a) -> Rel a b -> RelG a b.
+Proof. intros K R. assert (G : RelG a a).
+  { split; [rewrite (prune_id kid a K); apply Rel_refl|]. unfold NewDead. apply Forall_forall. intros t Ht.
+    apply in_map_iff in Ht as (p & <- & Hp). rewrite Forall_forall in K. specialize (K p Hp). unfold tape_new_dead, tape_kid. cbn [ptape fst].
+    unfold keepP in K. rewrite K. discriminate. }
+  exact (RelG_step _ _ _ G R). Qed.
+(* when the result has no paragraph of the session, the relation is the plain one *)
+Lemma RelG_no_new a b : RelG a b -> Forall (fun p => keepP kid p = true) (doc_paras b) -> Rel a b.
+Proof. intros [R _] K. now rewrite (prune_id kid b K) in R. Qed.
+
 (* ---------- engine state invariant ---------- *)
 Variable d0 : doc.
-Definition Inv (e : eng) : Prop := Rel d0 (e_doc e) /\ cur0 <= e_cur e /\ c0 <= e_next_c e.
-Lemma Inv_with_doc e d : Inv e -> Rel (e_doc e) d -> Inv (with_doc e d).
-Proof. intros (A & B & C) R. split; [exact (Rel_trans _ _ _ A R)|]. split; assumption. Qed.
+Definition Inv (e : eng) : Prop := RelG d0 (e_doc e) /\ n0 <= d_next_uid (e_doc e) /\ cur0 <= e_cur e /\ c0 <= e_next_c e.
+Lemma Inv_with_doc e d : Inv e -> Rel (e_doc e) d -> Mon (e_doc e) d -> Inv (with_doc e d).
+Proof. intros (A & N & B & C) R M. split; [exact (RelG_step _ _ _ A R)|]. unfold Mon in M. cbn [with_doc e_doc e_cur e_next_c]. repeat split; try assumption; lia. Qed.
 Lemma new_mark_inv e : Inv e -> Inv (fst (new_mark e)) /\ Smark (snd (new_mark e)) = true.
-Proof. intros (A & B & C). unfold new_mark. cbn [fst snd]. split; [split; [exact A|split; cbn; lia]|].
+Proof. intros (A & N & B & C). unfold new_mark. cbn [fst snd]. split; [split; [exact A|split; [exact N|split; cbn; lia]]|].
   unfold Smark. cbn [m_id]. rewrite nat_of_str_of_nat. apply Nat.ltb_lt. lia. Qed.
 Lemma fresh_e_inv e : Inv e -> Inv (fst (fresh_e e)).
-Proof. intros H. unfold fresh_e. pose proof (Rel_fresh (e_doc e)) as F. destruct (fresh (e_doc e)) as [d u]. cbn [fst] in *. now apply Inv_with_doc. Qed.
+Proof. intros H. unfold fresh_e. pose proof (Rel_fresh (e_doc e)) as F. pose proof (Mon_fresh (e_doc e)) as M.
+  destruct (fresh (e_doc e)) as [d u]. cbn [fst] in *. now apply Inv_with_doc. Qed.
+Lemma fresh_e_uid e : snd (fresh_e e) = d_next_uid (e_doc e) /\ d_next_uid (e_doc (fst (fresh_e e))) = S (d_next_uid (e_doc e)).
+Proof. unfold fresh_e, fresh. cbn. auto. Qed.
 Lemma delete_run_inv e uid : Inv e -> Inv (fst (delete_run e uid)).
 Proof. intros H. unfold delete_run.
   pose proof (fresh_e_inv e H) as H1. destruct (fresh_e e) as [e1 du]. cbn [fst] in H1.
   destruct (new_mark_inv e1 H1) as [H2 Hm]. destruct (new_mark e1) as [e2 m]. cbn [fst snd] in *.
-  apply Inv_with_doc; [exact H2|]. exact (Rel_upd (PWrapDel uid du m) (e_doc e2) Hm). Qed.
+  apply Inv_with_doc; [exact H2| |apply Mon_upd]. exact (Rel_upd (PWrapDel uid du m) (e_doc e2) Hm). Qed.
 (* the w:ins node built for inserted text carries a session mark *)
 Definition session_ins (n : node) : Prop := exists iu m runs, n = ins_node iu m runs /\ Smark m = true.
-Lemma fold_fresh_inv {A} (f : eng -> A -> eng) (g : A -> list (nat * rpr * list rchild) -> nat -> list (nat * rpr * list rchild)) : True. Proof. exact I. Qed.
 Lemma ins_inline_inv e text anc sup : Inv e -> Inv (fst (ins_inline e text anc sup)) /\ session_ins (snd (ins_inline e text anc sup)).
 Proof. intros H. unfold ins_inline.
   set (segs := parse_inline _ _ _ _ _ _).
@@ -102,20 +162,80 @@ Proof. intros H. unfold ins_inline.
   destruct (new_mark_inv e2 H2) as [H3 Hm]. destruct (new_mark e2) as [e3 m]. cbn [fst snd] in *.
   split; [exact H3|]. exists iu, m, runs. split; auto. Qed.
 Lemma place_after_inv e uid n : Inv e -> session_ins n -> Inv (place_after e uid n).
-Proof. intros H (iu & m & runs & -> & Hm). unfold place_after. apply Inv_with_doc; auto. exact (Rel_upd (PInsAfter uid iu m runs) (e_doc e) Hm). Qed.
+Proof. intros H (iu & m & runs & -> & Hm). unfold place_after. apply Inv_with_doc; auto; [|apply Mon_upd]. exact (Rel_upd (PInsAfter uid iu m runs) (e_doc e) Hm). Qed.
 Lemma place_before_inv e uid n : Inv e -> session_ins n -> Inv (place_before e uid n).
-Proof. intros H (iu & m & runs & -> & Hm). unfold place_before. apply Inv_with_doc; auto. exact (Rel_upd (PInsBefore uid iu m runs) (e_doc e) Hm). Qed.
+Proof. intros H (iu & m & runs & -> & Hm). unfold place_before. apply Inv_with_doc; auto; [|apply Mon_upd]. exact (Rel_upd (PInsBefore uid iu m runs) (e_doc e) Hm). Qed.
 Lemma attach_inv e su eu text : Inv e -> Inv (attach e su eu text).
-Proof. intros (A & B & C). unfold attach. destruct text as [|c t]; [split; auto|].
+Proof. intros (A & N & B & C). unfold attach. destruct text as [|c t]; [exact (conj A (conj N (conj B C)))|].
   set (cid := str_of_nat (e_next_c e)).
   assert (Hc : Ccom cid = true). { unfold Ccom, cid. rewrite nat_of_str_of_nat. apply Nat.leb_le. exact C. }
   set (d1 := {| d_stories := d_stories (e_doc e); d_next_uid := d_next_uid (e_doc e); d_comments := d_comments (e_doc e) ++ _ |}).
   assert (R1 : Rel (e_doc e) d1).
   { split; [reflexivity|]. split; [reflexivity|]. eexists. split; [reflexivity|]. constructor; [exact Hc|constructor]. }
-  pose proof (Rel_fresh d1) as R2. destruct (fresh d1) as [d2 ru]. cbn [fst] in R2.
-  split; [|split; cbn; lia]. cbn [e_doc].
-  eapply Rel_trans; [exact A|]. eapply Rel_trans; [exact R1|]. eapply Rel_trans; [exact R2|].
-  exact (Rel_upd (PAnchor su eu cid ru rpr_cref) d2 Hc). Qed.
+  pose proof (Rel_fresh d1) as R2. pose proof (Mon_fresh d1) as M2. destruct (fresh d1) as [d2 ru]. cbn [fst] in R2, M2.
+  split; [|split; [|split; cbn; lia]]; cbn [e_doc].
+  - eapply RelG_step; [|exact (Rel_upd (PAnchor su eu cid ru rpr_cref) d2 Hc)]. eapply RelG_step; [|exact R2]. eapply RelG_step; [exact A|exact R1].
+  - unfold Mon in M2. cbn in *. lia. Qed.
+
+(* ---------- new paragraphs ---------- *)
+Definition good_para (p : para) : Prop := kid (p_id p) = false /\ rejS (atoms_l [] (p_nodes p)) = [].
+Lemma new_para_inv e text anc sup st cur : Inv e ->
+  Inv (fst (fst (new_para e text anc sup st cur))) /\ good_para (snd (fst (new_para e text anc sup st cur))).
+Proof. intros H. unfold new_para.
+  destruct (ins_inline_inv e text anc sup H) as [H1 Hi]. destruct (ins_inline e text anc sup) as [e1 ins]. cbn [fst snd] in *.
+  pose proof (fresh_e_inv e1 H1) as H2. destruct (fresh_e_uid e1) as [U1 U2]. destruct (fresh_e e1) as [e2 pid]. cbn [fst snd] in *.
+  split; [exact H2|]. split; cbn [p_id p_nodes].
+  - subst pid. unfold kid. apply Nat.ltb_ge. destruct H1 as (_ & N & _). exact N.
+  - destruct Hi as (iu & m & runs & -> & Hm). unfold atoms_l. cbn [flat_map]. rewrite app_nil_r. now apply rej_session_ins. Qed.
+Lemma new_paras_fold_inv anc sup cur skip : forall ls e ns cr i, Inv e -> Forall (fun ip => good_para (snd ip)) ns ->
+  let '(e', ns', _, _) := fold_left (new_paras_step anc sup cur skip) ls (e, ns, cr, i) in Inv e' /\ Forall (fun ip => good_para (snd ip)) ns'.
+Proof. induction ls as [|l ls IH]; intros e ns cr i H Hn; cbn [fold_left]; [split; assumption|].
+  unfold new_paras_step at 2. destruct (md_style l) as [ct st].
+  destruct (skip && _); [now apply IH|].
+  destruct (new_para_inv e ct anc sup st cur H) as [H1 Hg]. destruct (new_para e ct anc sup st cur) as [[e' p] iu]. cbn [fst snd] in *.
+  apply IH; [exact H1|]. apply Forall_app. split; [exact Hn|]. constructor; [exact Hg|constructor]. Qed.
+Lemma place_paras_inv e pid news : Inv e -> Forall (fun ip => good_para (snd ip)) news -> Inv (with_doc e (place_paras pid news (e_doc e))).
+Proof. intros (A & N & B & C) Hn. destruct A as [R D]. split; [|cbn [with_doc e_doc e_cur e_next_c]; repeat split; auto].
+  cbn [with_doc e_doc]. split.
+  - rewrite prune_place; [exact R|]. apply Forall_forall. intros ip Hip. rewrite Forall_forall in Hn. exact (proj1 (Hn ip Hip)).
+  - unfold NewDead in *. apply Forall_forall. intros t Ht. apply in_map_iff in Ht as (p & <- & Hp).
+    destruct (paras_place _ _ _ _ Hp) as [Ho|Hnew].
+    + rewrite Forall_forall in D. apply D. now apply in_map.
+    + apply in_map_iff in Hnew as (ip & <- & Hip). rewrite Forall_forall in Hn. destruct (Hn ip Hip) as [_ G]. intros _. exact G. Qed.
+Lemma track_insert_inv e text anc cur cm sup : Inv e ->
+  Inv (fst (track_insert e text anc cur cm sup)) /\ (forall ins, snd (track_insert e text anc cur cm sup) = Some ins -> session_ins ins).
+Proof. intros H. unfold track_insert. destruct (split_lines text) as [|l0 rest]; [split; [exact H|discriminate]|].
+  destruct (snd (md_style l0)).
+  - pose proof (new_paras_fold_inv anc sup cur true (l0 :: rest) e [] [] 0 H (Forall_nil _)) as G.
+    destruct (fold_left _ (l0 :: rest) (e, [], [], 0)) as [[[e1 news] created] k]. destruct G as [H1 Hn].
+    pose proof (place_paras_inv e1 (p_id cur) news H1 Hn) as H2. cbn [fst snd]. split; [|discriminate].
+    destruct created; [exact H2|now apply attach_inv].
+  - set (rest' := match last_opt rest with Some [] => removelast rest | _ => rest end).
+    assert (G0 : forall e1 oins, Inv e1 -> (forall ins, oins = Some ins -> session_ins ins) ->
+      let '(e2, news, created, _) := fold_left (new_paras_step anc sup cur false) rest' (e1, [], [], 0) in
+      let e3 := with_doc e2 (place_paras (p_id cur) news (e_doc e2)) in
+      let r := match oins, created with
+               | None, c0 :: _ => (attach e3 c0 (match last_opt created with Some x => x | None => c0 end) cm, None)
+               | _, _ => (e3, oins) end in
+      Inv (fst r) /\ (forall ins, snd r = Some ins -> session_ins ins)).
+    { intros e1 oins H1 Ho. pose proof (new_paras_fold_inv anc sup cur false rest' e1 [] [] 0 H1 (Forall_nil _)) as G.
+      destruct (fold_left _ rest' (e1, [], [], 0)) as [[[e2 news] created] k]. destruct G as [H2 Hn]. cbn zeta.
+      pose proof (place_paras_inv e2 (p_id cur) news H2 Hn) as H3.
+      destruct oins as [ins|]; [split; [exact H3|exact Ho]|].
+      destruct created; [split; [exact H3|exact Ho]|]. cbn [fst snd]. split; [now apply attach_inv|discriminate]. }
+    Ltac use_G0 G := match type of G with context[fold_left ?f ?l ?a] => destruct (fold_left f l a) as [[[e2 news] created] k] end;
+                      cbv beta iota zeta in G |- *; exact G.
+    destruct l0 as [|x l0'].
+    + destruct rest' as [|r0 rr] eqn:Er.
+      * destruct (ins_inline_inv e [] anc sup H) as [H1 Hi]. destruct (ins_inline e [] anc sup) as [e1 ins]. cbn [fst snd] in *.
+        assert (Ho : forall ins', Some ins = Some ins' -> session_ins ins') by (intros ins' E; inversion E; subst; exact Hi).
+        pose proof (G0 e1 (Some ins) H1 Ho) as G. use_G0 G.
+      * assert (Ho : forall ins', @None node = Some ins' -> session_ins ins') by discriminate.
+        pose proof (G0 e None H Ho) as G. use_G0 G.
+    + destruct (ins_inline_inv e (x :: l0') anc sup H) as [H1 Hi]. destruct (ins_inline e (x :: l0') anc sup) as [e1 ins]. cbn [fst snd] in *.
+      assert (Ho : forall ins', Some ins = Some ins' -> session_ins ins') by (intros ins' E; inversion E; subst; exact Hi).
+      pose proof (G0 e1 (Some ins) H1 Ho) as G. use_G0 G.
+Qed.
 
 Definition InvS (s : est) : Prop := Inv (s_eng s).
 Lemma fold_delete_inv : forall work e ds, Inv e ->
@@ -126,24 +246,29 @@ Lemma apply_indexed_inv s uc st tg nw cm o : InvS s -> InvS (fst (apply_indexed 
 Proof. intros H. unfold InvS in *. unfold apply_indexed.
   set (sp := if uc then _ else _). set (e := s_eng s) in *.
   destruct (match _ with Some c => is_some_nonempty (o_ins c) | None => false end); [exact H|].
-  destruct (negb (inline_text nw)); [exact H|].
+  destruct (negb (block_ok nw)); [exact H|].
   destruct (match o with Some x => x | None => _ end).
   - (* insertion *)
-    pose proof (Rel_anchor (e_doc e) sp st) as RA. destruct (insertion_anchor (e_doc e) sp st) as [d1 a0]. cbn [fst] in RA.
-    pose proof (Inv_with_doc e d1 H RA) as H1.
+    pose proof (Rel_anchor (e_doc e) sp st) as RA. pose proof (Mon_anchor (e_doc e) sp st) as MA.
+    destruct (insertion_anchor (e_doc e) sp st) as [d1 a0]. cbn [fst] in RA, MA.
+    pose proof (Inv_with_doc e d1 H RA MA) as H1.
     match goal with |- context[let '(a, before) := ?X in _] => destruct X as [a before] end.
     destruct a as [au|]; [|exact H1].
     destruct (negb (is_direct au d1)); [exact H|].
-    destruct before.
-    + destruct (ins_inline_inv (with_doc e d1) nw (run_rpr au d1) false H1) as [H2 Hi].
-      destruct (ins_inline (with_doc e d1) nw (run_rpr au d1) false) as [e2 ins]. cbn [fst snd] in *. cbn [fst set_eng s_eng].
-      apply attach_inv. now apply place_before_inv.
-    + match goal with |- context[ins_inline (with_doc e d1) nw ?st false] => 
-        destruct (ins_inline_inv (with_doc e d1) nw st false H1) as [H2 Hi]; destruct (ins_inline (with_doc e d1) nw st false) as [e2 ins] end.
-      cbn [fst snd] in *. cbn [fst set_eng s_eng]. apply attach_inv. now apply place_after_inv.
+    set (style := if before then _ else _).
+    destruct (inline_text nw).
+    + destruct (ins_inline_inv (with_doc e d1) nw style false H1) as [H2 Hi].
+      destruct (ins_inline (with_doc e d1) nw style false) as [e2 ins]. cbn [fst snd] in *. cbn [fst set_eng s_eng].
+      apply attach_inv. destruct before; [now apply place_before_inv|now apply place_after_inv].
+    + destruct (para_rec au d1) as [cur|]; [|exact H].
+      destruct (track_insert_inv (with_doc e d1) nw style cur cm false H1) as [H2 Hi].
+      destruct (track_insert (with_doc e d1) nw style cur cm false) as [e2 oi]. cbn [fst snd] in *.
+      destruct oi as [ins|]; cbn [fst set_eng s_eng]; [|exact H2].
+      apply attach_inv. specialize (Hi ins eq_refl). destruct before; [now apply place_before_inv|now apply place_after_inv].
   - (* deletion *)
-    pose proof (Rel_resolve (e_doc e) sp st (st + length tg)) as RR. destruct (resolve (e_doc e) sp st (st + length tg)) as [[d1 work] modif]. cbn [fst] in RR.
-    pose proof (Inv_with_doc e d1 H RR) as H1.
+    pose proof (Rel_resolve (e_doc e) sp st (st + length tg)) as RR. pose proof (Mon_resolve (e_doc e) sp st (st + length tg)) as MR.
+    destruct (resolve (e_doc e) sp st (st + length tg)) as [[d1 work] modif]. cbn [fst] in RR, MR.
+    pose proof (Inv_with_doc e d1 H RR MR) as H1.
     set (s1 := if modif then _ else _).
     assert (Hs1 : Inv (s_eng s1)) by (unfold s1; destruct modif, uc; exact H1).
     destruct work as [|w0 work']; [exact Hs1|].
@@ -152,8 +277,9 @@ Proof. intros H. unfold InvS in *. unfold apply_indexed.
     destruct (fold_left _ (w0 :: work') (s_eng s1, [])) as [e2 dels]. cbn [fst] in HF.
     cbn [fst set_eng s_eng]. now apply attach_inv.
   - (* modification *)
-    pose proof (Rel_resolve (e_doc e) sp st (st + length tg)) as RR. destruct (resolve (e_doc e) sp st (st + length tg)) as [[d1 work] modif]. cbn [fst] in RR.
-    pose proof (Inv_with_doc e d1 H RR) as H1.
+    pose proof (Rel_resolve (e_doc e) sp st (st + length tg)) as RR. pose proof (Mon_resolve (e_doc e) sp st (st + length tg)) as MR.
+    destruct (resolve (e_doc e) sp st (st + length tg)) as [[d1 work] modif]. cbn [fst] in RR, MR.
+    pose proof (Inv_with_doc e d1 H RR MR) as H1.
     set (s1 := if modif then _ else _).
     assert (Hs1 : Inv (s_eng s1)) by (unfold s1; destruct modif, uc; exact H1).
     destruct work as [|w0 work']; [exact Hs1|].
@@ -161,8 +287,14 @@ Proof. intros H. unfold InvS in *. unfold apply_indexed.
     pose proof (fold_delete_inv (w0 :: work') (s_eng s1) [] Hs1) as HF.
     destruct (fold_left _ (w0 :: work') (s_eng s1, [])) as [e2 dels]. cbn [fst] in HF.
     destruct nw as [|c nw']; [exact HF|].
-    match goal with |- context[ins_inline e2 ?t ?r ?b] => destruct (ins_inline_inv e2 t r b HF) as [H2 Hi]; destruct (ins_inline e2 t r b) as [e3 ins] end.
-    cbn [fst snd] in *. cbn [fst set_eng s_eng]. apply attach_inv. now apply place_after_inv.
+    set (tti := match md_style (c :: nw') with (ct, Some l) => _ | _ => _ end).
+    destruct (inline_text tti).
+    + match goal with |- context[ins_inline e2 ?t ?r ?b] => destruct (ins_inline_inv e2 t r b HF) as [H2 Hi]; destruct (ins_inline e2 t r b) as [e3 ins] end.
+      cbn [fst snd] in *. cbn [fst set_eng s_eng]. apply attach_inv. now apply place_after_inv.
+    + destruct (para_rec _ d1) as [cp|]; [|exact H].
+      match goal with |- context[track_insert e2 ?t ?r ?p ?c0 ?b] => destruct (track_insert_inv e2 t r p c0 b HF) as [H2 Hi]; destruct (track_insert e2 t r p c0 b) as [e3 oi] end.
+      cbn [fst snd] in *. destruct oi as [ins|]; cbn [fst set_eng s_eng]; [|exact H2].
+      apply attach_inv. apply place_after_inv; [exact H2|]. exact (Hi ins eq_refl).
 Qed.
 
 Lemma locate_inv s tg orc : InvS s -> InvS (snd (fst (locate s tg orc))).
@@ -180,31 +312,49 @@ Proof. intros H. unfold apply_heuristic. destruct tg as [|c tg']; [exact H|].
   destruct m as [[st ml]|]; [|exact HL]. cbn [fst]. now apply apply_located_inv. Qed.
 Lemma rebuild_inv s : InvS s -> InvS (rebuild s). Proof. auto. Qed.
 
-(* ---------- counting: every submitted edit is counted exactly once (unless the model stops at an out-of-scope case) ---------- *)
+(* ---------- the invariant along a batch ---------- *)
 Definition hstate := (est * nat * nat * nat * list fm * list (nat * nat))%type.
-Definition h_ok (k : nat) (a : hstate) : Prop :=
-  let '(s, ap, sk, out, _, _) := a in InvS s /\ (out = 0 -> ap + sk = k).
-Lemma step_heur_ok k a edp : h_ok k a -> h_ok (S k) (step_heur a edp).
-Proof. destruct a as [[[[[s ap] sk] out] orc] occ]. destruct edp as [ed rng]. intros [HI Hc]. unfold step_heur.
-  destruct out as [|out']; [|split; [exact HI|discriminate]]. cbn [Nat.eqb negb]. specialize (Hc eq_refl).
-  destruct (match rng with Some (a, b) => overl occ a b | None => false end); [split; [exact HI|intros _; lia]|].
+Definition h_inv (a : hstate) : Prop := let '(s, _, _, _, _, _) := a in InvS s.
+Lemma step_heur_inv a edp : h_inv a -> h_inv (step_heur a edp).
+Proof. destruct a as [[[[[s ap] sk] out] orc] occ]. destruct edp as [ed rng]. intros HI. unfold step_heur.
+  destruct (negb (Nat.eqb out 0)); [exact HI|].
+  destruct (match rng with Some (a, b) => overl occ a b | None => false end); [exact HI|].
   pose proof (apply_heuristic_inv s (ed_target ed) (ed_new ed) (ed_comment ed) orc HI) as HH.
-  destruct (apply_heuristic s _ _ _ orc) as [[s' oc] orc']. cbn [fst] in HH. destruct oc; (split; [exact HH|]); intros E; try lia. Qed.
-Lemma fold_heur_ok : forall es k a, h_ok k a -> h_ok (k + length es) (fold_left step_heur es a).
-Proof. induction es as [|ed es IH]; intros k a H; cbn [fold_left length]; [now rewrite Nat.add_0_r|].
-  replace (k + S (length es)) with (S k + length es) by lia. apply IH. now apply step_heur_ok. Qed.
+  destruct (apply_heuristic s _ _ _ orc) as [[s' oc] orc']. cbn [fst] in HH. destruct oc; exact HH. Qed.
+Lemma fold_heur_inv : forall es a, h_inv a -> h_inv (fold_left step_heur es a).
+Proof. induction es as [|ed es IH]; intros a H; cbn [fold_left]; [exact H|]. apply IH. now apply step_heur_inv. Qed.
 Definition istate := (est * nat * nat * nat * list (nat * nat))%type.
-Definition i_ok (k : nat) (a : istate) : Prop := let '(s, ap, sk, out, _) := a in InvS s /\ (out = 0 -> ap + sk = k).
-Lemma step_idx_ok k a ed : i_ok k a -> i_ok (S k) (step_idx a ed).
-Proof. destruct a as [[[[s ap] sk] out] occ]. intros [HI Hc]. unfold step_idx.
-  destruct out as [|out']; [|split; [exact HI|discriminate]]. cbn [Nat.eqb negb]. specialize (Hc eq_refl).
-  destruct (overl occ _ _); [split; [exact HI|intros _; lia]|].
+Definition i_inv (a : istate) : Prop := let '(s, _, _, _, _) := a in InvS s.
+Lemma step_idx_inv a ed : i_inv a -> i_inv (step_idx a ed).
+Proof. destruct a as [[[[s ap] sk] out] occ]. intros HI. unfold step_idx.
+  destruct (negb (Nat.eqb out 0)); [exact HI|].
+  destruct (overl occ _ _); [exact HI|].
   match goal with |- context[apply_indexed ?a ?b ?c ?d ?e ?f ?g] => pose proof (apply_indexed_inv a b c d e f g HI) as HH; destruct (apply_indexed a b c d e f g) as [s' oc] end.
-  cbn [fst] in HH. destruct oc; (split; [exact HH|]); intros E; try lia. Qed.
-Lemma fold_idx_ok : forall es k a, i_ok k a -> i_ok (k + length es) (fold_left step_idx es a).
-Proof. induction es as [|ed es IH]; intros k a H; cbn [fold_left length]; [now rewrite Nat.add_0_r|].
-  replace (k + S (length es)) with (S k + length es) by lia. apply IH. now apply step_idx_ok. Qed.
+  cbn [fst] in HH. destruct oc; exact HH. Qed.
+Lemma fold_idx_inv : forall es a, i_inv a -> i_inv (fold_left step_idx es a).
+Proof. induction es as [|ed es IH]; intros a H; cbn [fold_left]; [exact H|]. apply IH. now apply step_idx_inv. Qed.
 End EngInv.
+
+(* ---------- counting: every submitted edit is counted exactly once (unless the model stops at an out-of-scope case) ---------- *)
+Definition h_cnt (k : nat) (a : hstate) : Prop := let '(_, ap, sk, out, _, _) := a in out = 0 -> ap + sk = k.
+Lemma step_heur_cnt k a edp : h_cnt k a -> h_cnt (S k) (step_heur a edp).
+Proof. destruct a as [[[[[s ap] sk] out] orc] occ]. destruct edp as [ed rng]. intros Hc. unfold step_heur.
+  destruct out as [|out']; [|intros E; discriminate]. cbn [Nat.eqb negb]. specialize (Hc eq_refl).
+  destruct (match rng with Some (a, b) => overl occ a b | None => false end); [intros _; lia|].
+  destruct (apply_heuristic s _ _ _ orc) as [[s' oc] orc']. destruct oc; intros E; try lia; discriminate. Qed.
+Lemma fold_heur_cnt : forall es k a, h_cnt k a -> h_cnt (k + length es) (fold_left step_heur es a).
+Proof. induction es as [|ed es IH]; intros k a H; cbn [fold_left length]; [now rewrite Nat.add_0_r|].
+  replace (k + S (length es)) with (S k + length es) by lia. apply IH. now apply step_heur_cnt. Qed.
+Definition i_cnt (k : nat) (a : istate) : Prop := let '(_, ap, sk, out, _) := a in out = 0 -> ap + sk = k.
+Lemma step_idx_cnt k a ed : i_cnt k a -> i_cnt (S k) (step_idx a ed).
+Proof. destruct a as [[[[s ap] sk] out] occ]. intros Hc. unfold step_idx.
+  destruct out as [|out']; [|intros E; discriminate]. cbn [Nat.eqb negb]. specialize (Hc eq_refl).
+  destruct (overl occ _ _); [intros _; lia|].
+  match goal with |- context[apply_indexed ?a ?b ?c ?d ?e ?f ?g] => destruct (apply_indexed a b c d e f g) as [s' oc] end.
+  destruct oc; intros E; try lia; discriminate. Qed.
+Lemma fold_idx_cnt : forall es k a, i_cnt k a -> i_cnt (k + length es) (fold_left step_idx es a).
+Proof. induction es as [|ed es IH]; intros k a H; cbn [fold_left length]; [now rewrite Nat.add_0_r|].
+  replace (k + S (length es)) with (S k + length es) by lia. apply IH. now apply step_idx_cnt. Qed.
 
 (* ---------- the engine on a whole batch ---------- *)
 Lemma sort_by_length {A} (lt : A -> A -> bool) l : length (sort_by lt l) = length l.
@@ -215,38 +365,74 @@ Proof. unfold sort_by. assert (G : forall l acc, length (fold_left (fun acc x =>
   now rewrite G. Qed.
 Lemma filter_split_length {A} (p : A -> bool) l : length (filter p l) + length (filter (fun x => negb (p x)) l) = length l.
 Proof. induction l as [|x l IH]; simpl; auto. destruct (p x); simpl; lia. Qed.
+Lemma plan_length : forall l tx orc, length (fst (plan tx l orc)) = length l.
+Proof. induction l as [|ed l IH]; intros tx orc; cbn [plan]; [reflexivity|].
+  destruct (ed_target ed).
+  - specialize (IH tx orc). destruct (plan tx l orc) as [l' o']. cbn [fst length] in *. now rewrite IH.
+  - destruct (find_match tx (c :: s) orc) as [m orcx]. specialize (IH tx orcx). destruct (plan tx l orcx) as [l' o']. cbn [fst length] in *. now rewrite IH. Qed.
 
-Theorem engine_rel d author ts edits orc :
-  let nd := normalize_doc d in
-  let '(d', ap, sk, out) := apply_edits d author ts edits orc in
-  Rel (scan_ids nd) (next_comment_id nd) nd d' /\ (out = 0 -> ap + sk = length edits).
-Proof. cbn zeta. unfold apply_edits.
-  set (nd := normalize_doc d). set (cur0 := scan_ids nd). set (c0 := next_comment_id nd).
+(* every paragraph identity lies below the document's next free identity (what the reader guarantees) *)
+Definition wf_ids (d : doc) : Prop := Forall (fun p => p_id p < d_next_uid d) (doc_paras d).
+
+Theorem engine_counts d author ts edits orc :
+  let '(_, ap, sk, out) := apply_edits d author ts edits orc in out = 0 -> ap + sk = length edits.
+Proof. unfold apply_edits.
   set (e := mk_engine d author ts).
-  assert (He : Inv cur0 c0 nd e). { unfold e, mk_engine. fold nd. split; [apply Rel_refl|]. cbn. split; unfold cur0, c0; lia. }
   set (s0 := {| s_eng := e; s_raw := _; s_clean := None; s_cm0 := _; s_cmc := [] |}).
   set (indexed := filter _ edits). set (heur := filter (fun x => match ed_index x with Some _ => false | None => true end) edits).
   assert (Hlen : length indexed + length heur = length edits).
   { unfold indexed, heur. rewrite <- (filter_split_length (fun x => match ed_index x with Some _ => true | None => false end) edits). f_equal.
     apply f_equal. apply filter_ext. intros x. destruct (ed_index x); reflexivity. }
-  pose proof (fold_idx_ok cur0 c0 nd (sort_idx_desc indexed) 0 (s0, 0, 0, 0, []) (conj He (fun _ => eq_refl))) as HI.
+  pose proof (fold_idx_cnt (sort_idx_desc indexed) 0 (s0, 0, 0, 0, []) (fun _ => eq_refl)) as HI.
   unfold sort_idx_desc in HI at 1. rewrite sort_by_length in HI. cbn [Nat.add] in HI.
-  destruct (fold_left step_idx (sort_idx_desc indexed) (s0, 0, 0, 0, [])) as [[[[s1 ap1] sk1] out1] occ1]. destruct HI as [HI1 HI2].
+  destruct (fold_left step_idx (sort_idx_desc indexed) (s0, 0, 0, 0, [])) as [[[[s1 ap1] sk1] out1] occ1].
   destruct heur as [|h heur'] eqn:Eh.
-  - split; [exact (proj1 HI1)|]. intros E. rewrite (HI2 E). simpl in Hlen. lia.
-  - destruct (plan (map_text (s_raw (rebuild s1))) (sort_len_desc (h :: heur')) orc) as [planned orc1] eqn:Ep.
-    assert (Lp : length planned = length (h :: heur')).
-    { rewrite <- (sort_by_length (fun a b => length (ed_target b) <? length (ed_target a)) (h :: heur')). fold (sort_len_desc (h :: heur')).
-      revert planned orc orc1 Ep. generalize (map_text (s_raw (rebuild s1))). induction (sort_len_desc (h :: heur')) as [|ed l IHl]; intros tx planned orc0 orc1' Ep; cbn [plan] in Ep.
-      - inversion Ep. reflexivity.
-      - destruct (ed_target ed).
-        + destruct (plan tx l orc0) as [l' o'] eqn:E1. inversion Ep; subst. cbn [length]. f_equal. eapply IHl; eauto.
-        + destruct (find_match tx (c :: s) orc0) as [m orcx]. destruct (plan tx l orcx) as [l' o'] eqn:E1. inversion Ep; subst. cbn [length]. f_equal. eapply IHl; eauto. }
-    pose proof (fold_heur_ok cur0 c0 nd planned (length indexed) (rebuild s1, ap1, sk1, out1, orc1, occ1) (conj HI1 HI2)) as HH.
+  - intros E. cbn [i_cnt] in HI. rewrite (HI E). simpl in Hlen. lia.
+  - pose proof (plan_length (sort_len_desc (h :: heur')) (map_text (s_raw (rebuild s1))) orc) as Lp.
+    destruct (plan (map_text (s_raw (rebuild s1))) (sort_len_desc (h :: heur')) orc) as [planned orc1]. cbn [fst] in Lp.
+    unfold sort_len_desc in Lp. rewrite sort_by_length in Lp.
+    pose proof (fold_heur_cnt planned (length indexed) (rebuild s1, ap1, sk1, out1, orc1, occ1) HI) as HH.
     rewrite Lp in HH.
-    destruct (fold_left step_heur planned _) as [[[[[s2 ap2] sk2] out2] orc2] occ2]. destruct HH as [HH1 HH2].
-    split; [exact (proj1 HH1)|]. intros E. rewrite (HH2 E). exact Hlen. Qed.
+    destruct (fold_left step_heur planned _) as [[[[[s2 ap2] sk2] out2] orc2] occ2]. cbn [h_cnt] in HH.
+    intros E. rewrite (HH E). exact Hlen. Qed.
+
+Theorem engine_rel d author ts edits orc :
+  let nd := normalize_doc d in
+  wf_ids nd ->
+  let '(d', _, _, _) := apply_edits d author ts edits orc in
+  RelG (scan_ids nd) (next_comment_id nd) (d_next_uid nd) nd d'.
+Proof. cbn zeta. intros Hwf. unfold apply_edits.
+  set (nd := normalize_doc d) in *. set (cur0 := scan_ids nd). set (c0 := next_comment_id nd). set (n0 := d_next_uid nd).
+  set (e := mk_engine d author ts).
+  assert (He : Inv cur0 c0 n0 nd e).
+  { unfold e, mk_engine. fold nd. split; [|cbn; repeat split; unfold cur0, c0, n0; lia]. cbn [e_doc].
+    apply Rel_is_RelG; [|apply Rel_refl]. unfold wf_ids in Hwf. apply Forall_forall. intros p Hp. rewrite Forall_forall in Hwf.
+    unfold keepP, kid, n0. apply Nat.ltb_lt. exact (Hwf p Hp). }
+  set (s0 := {| s_eng := e; s_raw := _; s_clean := None; s_cm0 := _; s_cmc := [] |}).
+  set (indexed := filter _ edits). set (heur := filter (fun x => match ed_index x with Some _ => false | None => true end) edits).
+  pose proof (fold_idx_inv cur0 c0 n0 nd (sort_idx_desc indexed) (s0, 0, 0, 0, []) He) as HI.
+  destruct (fold_left step_idx (sort_idx_desc indexed) (s0, 0, 0, 0, [])) as [[[[s1 ap1] sk1] out1] occ1]. cbn [i_inv] in HI.
+  destruct heur as [|h heur'].
+  - exact (proj1 HI).
+  - destruct (plan (map_text (s_raw (rebuild s1))) (sort_len_desc (h :: heur')) orc) as [planned orc1].
+    pose proof (fold_heur_inv cur0 c0 n0 nd planned (rebuild s1, ap1, sk1, out1, orc1, occ1) HI) as HH.
+    destruct (fold_left step_heur planned _) as [[[[[s2 ap2] sk2] out2] orc2] occ2]. exact (proj1 HH). Qed.
+Theorem engine_contract d author ts edits orc :
+  let nd := normalize_doc d in
+  let '(d', ap, sk, out) := apply_edits d author ts edits orc in
+  (wf_ids nd -> RelG (scan_ids nd) (next_comment_id nd) (d_next_uid nd) nd d') /\ (out = 0 -> ap + sk = length edits).
+Proof. cbn zeta. pose proof (engine_rel d author ts edits orc) as R. pose proof (engine_counts d author ts edits orc) as K. cbn zeta in R.
+  destruct (apply_edits d author ts edits orc) as [[[d' ap] sk] out]. split; assumption. Qed.
+(* a result without paragraphs of the session (no block insertion happened) satisfies the plain relation: same paragraphs *)
+Theorem engine_plain d author ts edits orc :
+  let nd := normalize_doc d in
+  let '(d', _, _, _) := apply_edits d author ts edits orc in
+  wf_ids nd -> Forall (fun p => p_id p < d_next_uid nd) (doc_paras d') -> Rel (scan_ids nd) (next_comment_id nd) nd d'.
+Proof. cbn zeta. pose proof (engine_rel d author ts edits orc) as R. cbn zeta in R.
+  destruct (apply_edits d author ts edits orc) as [[[d' ap] sk] out]. intros W K. eapply RelG_no_new; [exact (R W)|].
+  apply Forall_forall. intros p Hp. rewrite Forall_forall in K. unfold keepP, kid. apply Nat.ltb_lt. exact (K p Hp). Qed.
 Print Assumptions engine_rel.
+Print Assumptions engine_counts.
 
 (* ---------- the input carries no session mark / comment: rejecting the session leaves it untouched ---------- *)
 Lemma max_list_ge : forall l x, In x l -> x <= max_list l.
@@ -351,6 +537,120 @@ Theorem parse_inline_literal isspace isword fuel s b i : s <> [] -> search isspa
 Proof. intros Hs H. cbn [parse_inline]. destruct s; [congruence|]. now rewrite H. Qed.
 Print Assumptions apply_run_props_inherits.
 
+(* ---------- block insertions: heading lines, paragraph properties, one comment ---------- *)
+Lemma strip_hashes_repeat k t : strip_hashes (repeat c_hashN k ++ 32%N :: t) = 32%N :: t.
+Proof. induction k as [|k IH]; [reflexivity|]. cbn [repeat app strip_hashes]. now rewrite N.eqb_refl. Qed.
+Lemma count_hashes_repeat k t : count_hashes (repeat c_hashN k ++ 32%N :: t) = k.
+Proof. induction k as [|k IH]; [reflexivity|]. cbn [repeat app count_hashes]. now rewrite N.eqb_refl, IH. Qed.
+(* k >= 1 '#' followed by a space: a heading line of level k; its text is what follows, stripped *)
+Theorem md_style_heading k t : md_style (repeat c_hashN (S k) ++ 32%N :: t) = (strip_ws (32%N :: t), Some (S k)).
+Proof. unfold md_style. cbn [repeat app]. rewrite N.eqb_refl.
+  change (c_hashN :: repeat c_hashN k ++ 32%N :: t) with (repeat c_hashN (S k) ++ 32%N :: t).
+  rewrite strip_hashes_repeat, count_hashes_repeat. reflexivity. Qed.
+Theorem md_style_plain c s : N.eqb c c_hashN = false -> md_style (c :: s) = (c :: s, None).
+Proof. intros H. unfold md_style. now rewrite H. Qed.
+(* the paragraph created for a line: one w:ins holding the line's runs; a heading line gets the heading style and no other
+   paragraph property, any other line a copy of the current paragraph's properties and style *)
+Theorem new_para_shape e text anc sup st cur :
+  let '(_, p, iu) := new_para e text anc sup st cur in
+  p_nodes p = [snd (ins_inline e text anc sup)] /\ iu = node_uid (snd (ins_inline e text anc sup)) /\
+  p_style p = match st with Some l => PSHeading l | None => p_style cur end /\
+  p_ppr p = match st with Some _ => 0%N | None => p_ppr cur end.
+Proof. unfold new_para. destruct (ins_inline e text anc sup) as [e1 ins]. destruct (fresh_e e1) as [e2 pid]. cbn. auto. Qed.
+
+Definition same_meta (e e' : eng) : Prop :=
+  d_comments (e_doc e') = d_comments (e_doc e) /\ e_next_c e' = e_next_c e /\ e_author e' = e_author e /\ e_ts e' = e_ts e.
+Lemma sm_refl e : same_meta e e. Proof. repeat split. Qed.
+Lemma sm_trans a b c : same_meta a b -> same_meta b c -> same_meta a c.
+Proof. intros (A1 & A2 & A3 & A4) (B1 & B2 & B3 & B4). repeat split; congruence. Qed.
+Lemma sm_fresh_e e : same_meta e (fst (fresh_e e)). Proof. repeat split. Qed.
+Lemma sm_new_mark e : same_meta e (fst (new_mark e)). Proof. repeat split. Qed.
+Lemma sm_with_doc e d : d_comments d = d_comments (e_doc e) -> same_meta e (with_doc e d). Proof. intros H. repeat split; auto. Qed.
+Lemma sm_ins_inline e text anc sup : same_meta e (fst (ins_inline e text anc sup)).
+Proof. unfold ins_inline. set (segs := parse_inline _ _ _ _ _ _).
+  assert (G : forall l e0 rs, same_meta e0 (fst (fold_left (fun acc seg => let '(e0, rs) := acc in let '(t, b, i) := seg in
+                        let '(e0', u) := fresh_e e0 in (e0', rs ++ [(u, apply_run_props anc b i sup, [CT t])])) l (e0, rs)))).
+  { induction l as [|[[t b] i] l IH]; intros e0 rs; [apply sm_refl|]. cbn [fold_left].
+    pose proof (sm_fresh_e e0) as H1. destruct (fresh_e e0) as [e0' u]. cbn [fst] in H1. exact (sm_trans _ _ _ H1 (IH e0' _)). }
+  specialize (G segs e []). destruct (fold_left _ segs (e, [])) as [e1 runs]. cbn [fst] in G.
+  pose proof (sm_fresh_e e1) as H2. destruct (fresh_e e1) as [e2 iu]. cbn [fst] in H2.
+  pose proof (sm_new_mark e2) as H3. destruct (new_mark e2) as [e3 m]. cbn [fst] in *.
+  exact (sm_trans _ _ _ G (sm_trans _ _ _ H2 H3)). Qed.
+Lemma sm_new_para e text anc sup st cur : same_meta e (fst (fst (new_para e text anc sup st cur))).
+Proof. unfold new_para. pose proof (sm_ins_inline e text anc sup) as H1. destruct (ins_inline e text anc sup) as [e1 ins]. cbn [fst] in H1.
+  pose proof (sm_fresh_e e1) as H2. destruct (fresh_e e1) as [e2 pid]. cbn [fst] in *. exact (sm_trans _ _ _ H1 H2). Qed.
+Lemma sm_fold anc sup cur skip : forall ls e ns cr i,
+  same_meta e (fst (fst (fst (fold_left (new_paras_step anc sup cur skip) ls (e, ns, cr, i))))).
+Proof. induction ls as [|l ls IH]; intros e ns cr i; cbn [fold_left]; [apply sm_refl|].
+  unfold new_paras_step at 2. destruct (md_style l) as [ct st]. destruct (skip && _); [apply IH|].
+  pose proof (sm_new_para e ct anc sup st cur) as H1. destruct (new_para e ct anc sup st cur) as [[e' p] iu]. cbn [fst] in H1.
+  exact (sm_trans _ _ _ H1 (IH _ _ _ _)). Qed.
+Lemma fold_created_nonempty anc sup cur skip : forall ls e ns cr i, cr <> [] ->
+  snd (fst (fold_left (new_paras_step anc sup cur skip) ls (e, ns, cr, i))) <> [].
+Proof. induction ls as [|l ls IH]; intros e ns cr i H; cbn [fold_left]; [exact H|].
+  unfold new_paras_step at 2. destruct (md_style l) as [ct st]. destruct (skip && _); [now apply IH|].
+  destruct (new_para e ct anc sup st cur) as [[e' p] iu]. apply IH. destruct cr; discriminate. Qed.
+Lemma split_lines_aux_nonempty : forall s cur b, split_lines_aux s cur b <> [].
+Proof. induction s as [|c r IH]; intros cur b; cbn [split_lines_aux]; [discriminate|].
+  destruct (is_nl c); [destruct b; [apply IH|discriminate]|apply IH]. Qed.
+(* a commented block insertion adds exactly one comment record: on the heading path track_insert attaches it itself (and
+   returns no inline element), otherwise the caller attaches it to the inline w:ins it gets back *)
+Theorem track_insert_one_comment e text anc cur c t sup :
+  let r := track_insert e text anc cur (c :: t) sup in
+  d_comments (e_doc (fst r)) = d_comments (e_doc e) ++
+    match snd r with
+    | Some _ => []
+    | None => [{| c_id := str_of_nat (e_next_c e); c_author := e_author e; c_date := e_ts e; c_text := c :: t; c_parent := None |}]
+    end.
+Proof. cbn zeta. unfold track_insert. destruct (split_lines text) as [|l0 rest] eqn:El; [exfalso; exact (split_lines_aux_nonempty _ _ _ El)|].
+  destruct (md_style l0) as [ct0 st0] eqn:E0. cbn [snd]. destruct st0 as [lv|].
+  - pose proof (sm_fold anc sup cur true (l0 :: rest) e [] [] 0) as G.
+    assert (Hne : snd (fst (fold_left (new_paras_step anc sup cur true) (l0 :: rest) (e, [], [], 0))) <> []).
+    { cbn [fold_left]. unfold new_paras_step at 2. rewrite E0. cbv beta iota zeta.
+      assert (Ek : (true && match ct0 with [] => false | _ :: _ => false end) = false) by (destruct ct0; reflexivity).
+      try rewrite Ek.
+      destruct (new_para e ct0 anc sup (Some lv) cur) as [[e' p] iu]. apply fold_created_nonempty. discriminate. }
+    destruct (fold_left _ (l0 :: rest) (e, [], [], 0)) as [[[e1 news] created] k]. cbn [fst snd] in *.
+    destruct created as [|c0' cr]; [congruence|].
+    destruct G as (G1 & G2 & G3 & G4).
+    match goal with |- context[attach ?ee ?a ?b (c :: t)] => destruct (attach_one_comment ee a b c t) as [A1 _]; rewrite A1 end.
+    cbn [with_doc e_doc e_next_c e_author e_ts place_paras d_comments]. now rewrite G1, G2, G3, G4.
+  - set (rest' := match last_opt rest with Some [] => removelast rest | _ => rest end).
+    assert (G0 : forall e1 (oins : option node), same_meta e e1 -> (oins = None -> rest' <> []) ->
+      let '(e2, news, created, _) := fold_left (new_paras_step anc sup cur false) rest' (e1, [], [], 0) in
+      let e3 := with_doc e2 (place_paras (p_id cur) news (e_doc e2)) in
+      let r := match oins, created with
+               | None, c0 :: _ => (attach e3 c0 (match last_opt created with Some x => x | None => c0 end) (c :: t), None)
+               | _, _ => (e3, oins) end in
+      d_comments (e_doc (fst r)) = d_comments (e_doc e) ++
+        match snd r with
+        | Some _ => []
+        | None => [{| c_id := str_of_nat (e_next_c e); c_author := e_author e; c_date := e_ts e; c_text := c :: t; c_parent := None |}]
+        end).
+    { intros e1 oins S1 Hne. pose proof (sm_fold anc sup cur false rest' e1 [] [] 0) as G.
+      assert (Hcr : oins = None -> snd (fst (fold_left (new_paras_step anc sup cur false) rest' (e1, [], [], 0))) <> []).
+      { intros En. specialize (Hne En). destruct rest' as [|r0 rr]; [congruence|]. cbn [fold_left]. unfold new_paras_step at 2.
+        destruct (md_style r0) as [ct st]. cbn [andb]. destruct (new_para e1 ct anc sup st cur) as [[e' p] iu]. apply fold_created_nonempty. discriminate. }
+      destruct (fold_left _ rest' (e1, [], [], 0)) as [[[e2 news] created] k]. cbn [fst snd] in *. cbn zeta.
+      pose proof (sm_trans _ _ _ S1 G) as (G1 & G2 & G3 & G4).
+      destruct oins as [ins|].
+      - cbn [fst snd with_doc e_doc place_paras d_comments]. now rewrite app_nil_r.
+      - specialize (Hcr eq_refl). destruct created as [|c0' cr]; [congruence|]. cbn [fst snd].
+        match goal with |- context[attach ?ee ?a ?b (c :: t)] => destruct (attach_one_comment ee a b c t) as [A1 _]; rewrite A1 end.
+        cbn [with_doc e_doc e_next_c e_author e_ts place_paras d_comments]. now rewrite G1, G2, G3, G4. }
+    destruct l0 as [|x l0'].
+    + destruct rest' as [|r0 rr] eqn:Er.
+      * pose proof (sm_ins_inline e [] anc sup) as H1. destruct (ins_inline e [] anc sup) as [e1 ins]. cbn [fst] in H1.
+        pose proof (G0 e1 (Some ins) H1 ltac:(discriminate)) as G.
+        match type of G with context[fold_left ?f ?l ?a] => destruct (fold_left f l a) as [[[e2 news] created] k] end. cbv beta iota zeta in G |- *. exact G.
+      * pose proof (G0 e None (sm_refl e) ltac:(discriminate)) as G.
+        match type of G with context[fold_left ?f ?l ?a] => destruct (fold_left f l a) as [[[e2 news] created] k] end. cbv beta iota zeta in G |- *. exact G.
+    + pose proof (sm_ins_inline e (x :: l0') anc sup) as H1. destruct (ins_inline e (x :: l0') anc sup) as [e1 ins]. cbn [fst] in H1.
+      pose proof (G0 e1 (Some ins) H1 ltac:(discriminate)) as G.
+      match type of G with context[fold_left ?f ?l ?a] => destruct (fold_left f l a) as [[[e2 news] created] k] end. cbv beta iota zeta in G |- *. exact G.
+Qed.
+Print Assumptions track_insert_one_comment.
+
 (* ---------- C03: the map's text is the reader's text; resolving a range never changes the tape ---------- *)
 Lemma offsets_text d : forall l off, map_text (offsets d l off) = flat_map sp_text l.
 Proof. induction l as [|s l IH]; intros off; [reflexivity|]. cbn [offsets]. unfold map_text in *. cbn [flat_map o_text]. now rewrite IH. Qed.
@@ -397,17 +697,116 @@ Proof. unfold insertion_anchor.
 Qed.
 Print Assumptions resolve_keeps_tape.
 
+(* ---------- C08: an edit that is not applied leaves no trace (only run boundaries may move) ---------- *)
+Definition sdoc (s : est) : doc := e_doc (s_eng s).
+Ltac leafA := cbn [fst snd]; let HH := fresh "HH" in intros HH; try (exfalso; apply HH; reflexivity); try apply ARel_refl.
+Lemma apply_indexed_not_applied s uc st tg nw cm o :
+  snd (apply_indexed s uc st tg nw cm o) <> Applied -> ARel (sdoc s) (sdoc (fst (apply_indexed s uc st tg nw cm o))).
+Proof. unfold apply_indexed, sdoc.
+  set (sp := if uc then _ else _). set (e := s_eng s) in *.
+  destruct (match _ with Some c => is_some_nonempty (o_ins c) | None => false end); [leafA|].
+  destruct (negb (block_ok nw)); [leafA|].
+  destruct (match o with Some x => x | None => _ end).
+  - pose proof (anchor_keeps_tape (e_doc e) sp st) as RA. destruct (insertion_anchor (e_doc e) sp st) as [d1 a0]. cbn [fst] in RA.
+    match goal with |- context[let '(a, before) := ?X in _] => destruct X as [a before] end.
+    destruct a as [au|]; [|cbn [fst snd set_eng s_eng with_doc e_doc]; intros _; exact RA].
+    destruct (negb (is_direct au d1)); [leafA|].
+    destruct (inline_text nw).
+    + match goal with |- context[ins_inline ?a ?b ?c ?d] => destruct (ins_inline a b c d) as [e2 ins] end. leafA.
+    + destruct (para_rec au d1); [|leafA].
+      match goal with |- context[track_insert ?a ?b ?c ?d ?e0 ?f] => destruct (track_insert a b c d e0 f) as [e2 oi] end. destruct oi; leafA.
+  - pose proof (resolve_keeps_tape (e_doc e) sp st (st + length tg)) as RR. destruct (resolve (e_doc e) sp st (st + length tg)) as [[d1 work] modif]. cbn [fst] in RR.
+    set (s1 := if modif then _ else _).
+    assert (Hs1 : e_doc (s_eng s1) = d1) by (unfold s1; destruct modif, uc; reflexivity).
+    destruct work as [|w0 work']; [cbn [fst snd]; intros _; rewrite Hs1; exact RR|].
+    destruct (negb (same_para_direct d1 (w0 :: work'))); [leafA|].
+    match goal with |- context[fold_left ?f ?l ?a] => destruct (fold_left f l a) as [e2 dels] end. leafA.
+  - pose proof (resolve_keeps_tape (e_doc e) sp st (st + length tg)) as RR. destruct (resolve (e_doc e) sp st (st + length tg)) as [[d1 work] modif]. cbn [fst] in RR.
+    set (s1 := if modif then _ else _).
+    assert (Hs1 : e_doc (s_eng s1) = d1) by (unfold s1; destruct modif, uc; reflexivity).
+    destruct work as [|w0 work']; [cbn [fst snd]; intros _; rewrite Hs1; exact RR|].
+    destruct (negb (same_para_direct d1 (w0 :: work'))); [leafA|].
+    match goal with |- context[fold_left ?f ?l ?a] => destruct (fold_left f l a) as [e2 dels] end.
+    destruct nw as [|c nw']; [leafA|].
+    match goal with |- context[inline_text ?t] => destruct (inline_text t) end.
+    + match goal with |- context[ins_inline ?a ?b ?c0 ?d] => destruct (ins_inline a b c0 d) as [e3 ins] end. leafA.
+    + destruct (para_rec _ d1); [|leafA].
+      match goal with |- context[track_insert ?a ?b ?c0 ?d ?e0 ?f] => destruct (track_insert a b c0 d e0 f) as [e3 oi] end. destruct oi; leafA.
+Qed.
+Lemma apply_located_not_applied s uc st ml nw cm :
+  snd (apply_located s uc st ml nw cm) <> Applied -> ARel (sdoc s) (sdoc (fst (apply_located s uc st ml nw cm))).
+Proof. unfold apply_located.
+  destruct (existsb _ _); [leafA|]. destruct (existsb _ _); [leafA|].
+  destruct (str_eqb _ _); [leafA|]. destruct (prefixb _ _); [apply apply_indexed_not_applied|].
+  match goal with |- context[match ?a with [] => _ | _ :: _ => _ end] => destruct a end;
+  match goal with |- context[match ?a with [] => _ | _ :: _ => _ end] => destruct a end; first [apply apply_indexed_not_applied | leafA]. Qed.
+Lemma locate_doc s tg orc : sdoc (snd (fst (locate s tg orc))) = sdoc s.
+Proof. unfold locate, sdoc. destruct (find_sub tg (map_text (s_raw s)) 0); [reflexivity|].
+  destruct orc as [|a r]; (match goal with |- context[find_sub tg ?a 0] => destruct (find_sub tg a 0) end; [reflexivity|]).
+  - match goal with |- context[find_match ?a ?b ?c] => destruct (find_match a b c) end. reflexivity.
+  - destruct a; [reflexivity|]. match goal with |- context[find_match ?a ?b ?c] => destruct (find_match a b c) end. reflexivity. Qed.
+Lemma apply_heuristic_not_applied s tg nw cm orc :
+  snd (fst (apply_heuristic s tg nw cm orc)) <> Applied -> ARel (sdoc s) (sdoc (fst (fst (apply_heuristic s tg nw cm orc)))).
+Proof. unfold apply_heuristic. destruct tg as [|c tg']; [intros _; apply ARel_refl|].
+  pose proof (locate_doc s (c :: tg') orc) as HL. destruct (locate s (c :: tg') orc) as [[[m uc] s1] orc2]. cbn [fst snd] in HL.
+  destruct m as [[st ml]|]; cbn [fst snd]; [|intros _; rewrite HL; apply ARel_refl].
+  intros H. rewrite <- HL. now apply apply_located_not_applied. Qed.
+Section NoTrace.
+Variable d0 : doc.
+Definition h_nt (a : hstate) : Prop := let '(s, ap, _, _, _, _) := a in ap = 0 -> ARel d0 (sdoc s).
+Lemma step_heur_nt a edp : h_nt a -> h_nt (step_heur a edp).
+Proof. destruct a as [[[[[s ap] sk] out] orc] occ]. destruct edp as [ed rng]. intros HI. unfold step_heur.
+  destruct (negb (Nat.eqb out 0)); [exact HI|].
+  destruct (match rng with Some (a, b) => overl occ a b | None => false end); [exact HI|].
+  pose proof (apply_heuristic_not_applied s (ed_target ed) (ed_new ed) (ed_comment ed) orc) as HH.
+  destruct (apply_heuristic s _ _ _ orc) as [[s' oc] orc']. cbn [fst snd] in HH. destruct oc; cbn [h_nt].
+  - discriminate.
+  - intros E. exact (ARel_trans _ _ _ (HI E) (HH ltac:(discriminate))).
+  - intros E. exact (ARel_trans _ _ _ (HI E) (HH ltac:(discriminate))). Qed.
+Lemma fold_heur_nt : forall es a, h_nt a -> h_nt (fold_left step_heur es a).
+Proof. induction es as [|ed es IH]; intros a H; cbn [fold_left]; [exact H|]. apply IH. now apply step_heur_nt. Qed.
+Definition i_nt (a : istate) : Prop := let '(s, ap, _, _, _) := a in ap = 0 -> ARel d0 (sdoc s).
+Lemma step_idx_nt a ed : i_nt a -> i_nt (step_idx a ed).
+Proof. destruct a as [[[[s ap] sk] out] occ]. intros HI. unfold step_idx.
+  destruct (negb (Nat.eqb out 0)); [exact HI|].
+  destruct (overl occ _ _); [exact HI|].
+  match goal with |- context[apply_indexed ?a ?b ?c ?d ?e ?f ?g] => pose proof (apply_indexed_not_applied a b c d e f g) as HH; destruct (apply_indexed a b c d e f g) as [s' oc] end.
+  cbn [fst snd] in HH. destruct oc; cbn [i_nt].
+  - discriminate.
+  - intros E. exact (ARel_trans _ _ _ (HI E) (HH ltac:(discriminate))).
+  - intros E. exact (ARel_trans _ _ _ (HI E) (HH ltac:(discriminate))). Qed.
+Lemma fold_idx_nt : forall es a, i_nt a -> i_nt (fold_left step_idx es a).
+Proof. induction es as [|ed es IH]; intros a H; cbn [fold_left]; [exact H|]. apply IH. now apply step_idx_nt. Qed.
+End NoTrace.
+(* a batch in which nothing was applied - every edit skipped, or the model stopped at an out-of-scope edit - leaves the
+   normalised input as it was: the same atoms (characters, formatting, marks, anchors, other content) in every paragraph, the
+   same stories / tables / cells, the same comment records; only run boundaries may have moved *)
+Theorem engine_no_trace d author ts edits orc :
+  let '(d', ap, _, _) := apply_edits d author ts edits orc in ap = 0 -> ARel (normalize_doc d) d'.
+Proof. unfold apply_edits. set (nd := normalize_doc d).
+  set (e := mk_engine d author ts).
+  set (s0 := {| s_eng := e; s_raw := _; s_clean := None; s_cm0 := _; s_cmc := [] |}).
+  assert (H0 : i_nt nd (s0, 0, 0, 0, [])) by (intros _; apply ARel_refl).
+  set (indexed := filter _ edits). set (heur := filter (fun x => match ed_index x with Some _ => false | None => true end) edits).
+  pose proof (fold_idx_nt nd (sort_idx_desc indexed) _ H0) as HI.
+  destruct (fold_left step_idx (sort_idx_desc indexed) (s0, 0, 0, 0, [])) as [[[[s1 ap1] sk1] out1] occ1]. cbn [i_nt] in HI.
+  destruct heur as [|h heur']; [exact HI|].
+  destruct (plan (map_text (s_raw (rebuild s1))) (sort_len_desc (h :: heur')) orc) as [planned orc1].
+  pose proof (fold_heur_nt nd planned (rebuild s1, ap1, sk1, out1, orc1, occ1) HI) as HH.
+  destruct (fold_left step_heur planned _) as [[[[[s2 ap2] sk2] out2] orc2] occ2]. exact HH. Qed.
+Print Assumptions engine_no_trace.
+
 (* ---------- histories: every session satisfies its single-step contract relative to the document it loaded ---------- *)
 From Adeu Require Import History.
 Definition session_contract (d : doc) (s : session) (d' : doc) : Prop :=
   match s with
-  | SEdits a t es o => let nd := normalize_doc d in Rel (scan_ids nd) (next_comment_id nd) nd d'
+  | SEdits a t es o => let nd := normalize_doc d in wf_ids nd -> RelG (scan_ids nd) (next_comment_id nd) (d_next_uid nd) nd d'
   | SReview a t acts => exists ap sk, review_session d a t acts = (d', ap, sk) /\ ap + sk = length acts
   | SAcceptAll => d' = accept_all_doc (normalize_doc d)
   end.
 Lemma run_session_contract d s : session_contract d s (run_session d s).
 Proof. destruct s as [a t es o|a t acts|]; cbn [run_session session_contract].
-  - pose proof (engine_rel d a t es o) as H. cbn zeta in H. destruct (apply_edits d a t es o) as [[[d' ap] sk] out]. exact (proj1 H).
+  - pose proof (engine_rel d a t es o) as H. cbn zeta in H. destruct (apply_edits d a t es o) as [[[d' ap] sk] out]. exact H.
   - pose proof (actions_count (reply_doc a t) (normalize_doc d) acts) as H. unfold review_session in *.
     destruct (apply_actions (reply_doc a t) (normalize_doc d) acts) as [[d' ap] sk]. exists ap, sk. auto.
   - reflexivity. Qed.
